@@ -21,8 +21,8 @@ ASSUMPTIONS = [
 ]
 A_CORE = ["a", "B", "\\", "*", "?", '"', ":", "."]
 A_EXT = A_CORE + ["'", "&", "(", "%", " ", "_", "^"]
-SUBJ = ["a", "A", "b", "B", "\\", "*", "."]
-A_RE = ["a", "B", "\\", "*", "?", ".", "|", "(", "+", "[", "^", "$", "{"]
+SUBJ = ["a", "A", "b", "B", "\\", "*", ".", "/"]
+A_RE = ["a", "B", "\\", "*", "?", ".", "|", "(", "+", "[", "^", "$", "{", "/"]
 FIELD_A = ["a", " ", "'", "\\", "-"]
 BOUNDS = {
     "quick": dict(core_len=4, ext_len=3, re_pat_len=3, re_subj_len=4, field_len=4, cfg_core_len=4),
@@ -51,8 +51,10 @@ def configs():
             for q in ('"', "'", ""):
                 for ae in ("", ":", "E:"):
                     for flt in ("", "&", "Q", ":*"):  # Q = the quote character itself; ":*" overlaps add_escaped and a wildcard token
-                        for qp in ("always", "pattern"):
-                            if q == "" and qp == "pattern":
+                        for qp in ("always", "pattern", "pattern-ws"):
+                            if q == "" and qp != "always":
+                                continue
+                            if qp == "pattern-ws" and (flt or wm not in ("*", None)):
                                 continue
                             a = ae.replace("E", esc or "")
                             if esc is None and ae == "E:":
@@ -60,7 +62,7 @@ def configs():
                             f = flt.replace("Q", q)
                             if flt == "Q" and not q:
                                 continue
-                            if flt in ("Q", ":*") and qp == "pattern":
+                            if flt in ("Q", ":*") and qp != "always":
                                 continue
                             out.append((esc, wm, ws, q, a, f, qp))
     return out
@@ -93,6 +95,8 @@ def backend_for(cfg):
                      str_quote=q, escape_char=esc, wildcard_multi=wm, wildcard_single=ws, add_escaped=a, filter_chars=flt)
         if qp == "pattern":
             attrs.update(str_quote_pattern=re.compile(r"^\w+$"), str_quote_pattern_negation=True)
+        if qp == "pattern-ws":  # quote only values that contain whitespace: values with a quote character stay unquoted
+            attrs.update(str_quote_pattern=re.compile(r".*\s"), str_quote_pattern_negation=False)
         _BK[cfg] = type("C05Backend", (TextQueryBackend,), attrs)()
     return _BK[cfg]
 
@@ -191,6 +195,8 @@ def sub_convert(res, s, cfg):
     if bool(q) and qp == "pattern":
         # quoting decision is the backend's; the decoder recognises a quoted literal by its delimiters
         quoted = out.startswith(q) and len(out) >= 2 and not re.match(r"^\w+$", out)
+    if bool(q) and qp == "pattern-ws":
+        quoted = " " in s
     exp = expected_after_filter(ref, flt)
     dec, why = R.decode_literal(out, esc, wm, ws, q, a, quoted)
     res["outcomes"].add(h64([why, len(out) - len(s)]))
@@ -198,7 +204,7 @@ def sub_convert(res, s, cfg):
         return
     # classify the mechanism
     fl = R.flat(exp)
-    meta = set((wm or "") + (ws or "") + (q if quoted else "") + a)
+    meta = set((wm or "") + (ws or "") + (q or "") + a)  # a bare quote character is a metacharacter in an unquoted literal too
     if esc is None:
         cls = "escape-none"
         mech = any(isinstance(c, str) and c in meta for c in fl)
@@ -274,7 +280,18 @@ def sub_regex(res, pat, subjects):
     ss = SigmaString(pat)
     forms = []
     try:
-        forms.append(("to_regex", ss.to_regex(), False))
+        first = ss.to_regex()
+        forms.append(("to_regex", first, False))
+        # the same string object rendered for a target that additionally escapes '/', then for the first target again
+        custom = ss.to_regex("/")
+        forms.append(("to_regex-custom", custom, False))
+        txt = str(custom.regexp)
+        for m in re.finditer(r"(\\*)/", txt):
+            if len(m.group(1)) % 2 == 0:
+                add_violation(res, "regex:to_regex-custom:extra-escaped-character-not-escaped", {"sub": "regex", "s": pat}, "every / escaped", txt)
+                break
+        if str(ss.to_regex().regexp) != str(first.regexp) or str(SigmaString(pat).to_regex("/").regexp) != txt:
+            add_violation(res, "regex:to_regex:result-depends-on-earlier-call", {"sub": "regex", "s": pat}, [str(first.regexp), str(SigmaString(pat).to_regex("/").regexp)], [str(ss.to_regex().regexp), txt])
     except Exception as e:
         add_violation(res, "regex:to_regex:exception:" + type(e).__name__, {"sub": "regex", "s": pat}, "regex", repr(e))
     for method, ci in (("plain", False), ("ignore_case_flag", True), ("ignore_case_brackets", True)):
